@@ -18,6 +18,7 @@ import (
 	"sort"
 	"strconv"
 	"strings"
+	"sync"
 	"testing"
 	"time"
 
@@ -87,6 +88,33 @@ type verifC14Call struct {
 type verifC14Exec struct {
 	wid      int
 	arrivals chan *verifC14Call
+	gates    *verifC14Gates
+}
+
+// kill commands (`crunch-run --kill`) normally fail at once ("still running"); after the op kb<u> the
+// next one for (worker, container) blocks until the case's ke<u> answers it.
+type verifC14Gates struct {
+	sync.Mutex
+	armed map[[2]int]bool
+}
+
+func (g *verifC14Gates) take(wid, uuid int) bool {
+	g.Lock()
+	defer g.Unlock()
+	if g.armed[[2]int{wid, uuid}] {
+		delete(g.armed, [2]int{wid, uuid})
+		return true
+	}
+	return false
+}
+func (g *verifC14Gates) set(wid, uuid int, on bool) {
+	g.Lock()
+	defer g.Unlock()
+	if on {
+		g.armed[[2]int{wid, uuid}] = true
+	} else {
+		delete(g.armed, [2]int{wid, uuid})
+	}
 }
 
 var verifC14UUIDRe = regexp.MustCompile(`zzzzz-dz642-(\d{15})`)
@@ -117,7 +145,12 @@ func (e *verifC14Exec) Execute(env map[string]string, cmd string, stdin io.Reade
 		c.kind = "start"
 		c.uuid = verifC14UUIDNum(cmd)
 	case strings.HasPrefix(cmd, "crunch-run --kill"):
-		return nil, []byte("still running\n"), errors.New("still running")
+		u := verifC14UUIDNum(cmd)
+		if e.gates == nil || !e.gates.take(e.wid, u) {
+			return nil, []byte("still running\n"), errors.New("still running")
+		}
+		c.kind = "kill"
+		c.uuid = u
 	default:
 		return nil, []byte("command not found\n"), errors.New("command not found")
 	}
@@ -133,6 +166,13 @@ type verifC14Pend struct {
 	uuid int
 	rr   *remoteRunner
 	call *verifC14Call
+}
+
+type verifC14Kill struct {
+	wkr  *worker
+	uuid int
+	call *verifC14Call
+	done chan struct{} // receives when the wrapped onKilled has returned
 }
 
 type verifC14Probe struct {
@@ -154,6 +194,8 @@ type verifC14Driver struct {
 	runners   []*remoteRunner
 	owner     map[*remoteRunner]*worker
 	out       []string
+	gates     *verifC14Gates
+	kills     []*verifC14Kill
 }
 
 var verifC14Logger = func() logrus.FieldLogger {
@@ -192,6 +234,7 @@ func verifC14NewDriver() *verifC14Driver {
 		probes:   map[int]*verifC14Probe{},
 		owner:    map[*remoteRunner]*worker{},
 		base:     time.Now().Add(-2 * time.Hour),
+		gates:    &verifC14Gates{armed: map[[2]int]bool{}},
 	}
 	wp := &Pool{
 		logger:           verifC14Logger,
@@ -220,7 +263,7 @@ func verifC14NewDriver() *verifC14Driver {
 	wp.subscribers = map[<-chan struct{}]chan<- struct{}{}
 	wp.loaded = true
 	wp.newExecutor = func(inst cloud.Instance) Executor {
-		return &verifC14Exec{wid: verifC14InstNum(inst.ID()), arrivals: d.arrivals}
+		return &verifC14Exec{wid: verifC14InstNum(inst.ID()), arrivals: d.arrivals, gates: d.gates}
 	}
 	wp.registerMetrics(prometheus.NewRegistry())
 	d.is = &verifC14IS{}
@@ -460,6 +503,128 @@ func (d *verifC14Driver) op(op string) error {
 			d.out = append(d.out, "1")
 		} else {
 			d.out = append(d.out, "0")
+		}
+	case "kg", "kb":
+		// kg<u>:<g>  KillContainer(u) on a runner whose SIGTERM deadline (timeoutTERM) has already passed
+		//            at its first tick: the kill loop gives up (givenup, onUnkillable) -- waited for; g =
+		//            every other runner of the worker(s) concerned has given up
+		// kb<u>      KillContainer(u); the loop's first `crunch-run --kill` blocks until ke<u>:<ok>
+		u, e1 := num(0)
+		g := false
+		if kind == "kg" {
+			var e2 error
+			if len(a) != 2 {
+				return errors.New("bad op")
+			}
+			g, e2 = verifC14Bool(a[1])
+			if e2 != nil {
+				return errors.New("bad op")
+			}
+		} else if len(a) != 1 {
+			return errors.New("bad op")
+		}
+		if e1 != nil {
+			return errors.New("bad op")
+		}
+		uuid := verifC14UUID(u)
+		unk := make(chan struct{}, 8)
+		killedCh := make(chan struct{}, 8)
+		cand := map[*remoteRunner]*worker{}
+		wp.mtx.Lock()
+		for _, w := range wp.workers {
+			rr := w.running[uuid]
+			if rr == nil {
+				rr = w.starting[uuid]
+			}
+			if rr == nil {
+				continue
+			}
+			cand[rr] = w
+			// the op is about a runner that is not being stopped yet
+			rr.stopping = false
+			rr.timeoutSignal = time.Millisecond
+			if kind == "kg" {
+				rr.timeoutTERM = 0
+				for _, x := range w.running {
+					x.givenup = g
+				}
+				for _, x := range w.starting {
+					x.givenup = g
+				}
+				orig := w.onUnkillable
+				rr.onUnkillable = func(uuid string) { orig(uuid); unk <- struct{}{} }
+			} else {
+				rr.timeoutTERM = 100 * time.Hour
+				orig := w.onKilled
+				rr.onKilled = func(uuid string) { orig(uuid); killedCh <- struct{}{} }
+				d.gates.set(verifC14InstNum(w.instance.ID()), u, true)
+			}
+		}
+		wp.mtx.Unlock()
+		if !wp.KillContainer(uuid, "verif") {
+			if len(cand) > 0 {
+				return errors.New("KillContainer found no runner although one exists")
+			}
+			d.out = append(d.out, "0")
+			return nil
+		}
+		d.out = append(d.out, "1")
+		var chosen *worker
+		wp.mtx.Lock()
+		for rr, w := range cand {
+			if rr.stopping {
+				chosen = w
+			} else if kind == "kb" {
+				d.gates.set(verifC14InstNum(w.instance.ID()), u, false)
+			}
+		}
+		wp.mtx.Unlock()
+		if chosen == nil {
+			return errors.New("KillContainer returned true without stopping a runner")
+		}
+		if kind == "kg" {
+			select {
+			case <-unk:
+			case <-time.After(10 * time.Second):
+				panic("driver: kill loop did not give up")
+			}
+			return nil
+		}
+		wid := verifC14InstNum(chosen.instance.ID())
+		c := d.await(func(c *verifC14Call) bool { return c.kind == "kill" && c.wid == wid && c.uuid == u }, nil)
+		d.kills = append(d.kills, &verifC14Kill{wkr: chosen, uuid: u, call: c, done: killedCh})
+	case "ke":
+		// ke<u>:<ok>  the blocked `crunch-run --kill` of the oldest kb<u> returns: 1 = success (the process is
+		// gone) -> onKilled, waited for; 0 = error. Later signals of that loop fail at once.
+		u, e1 := num(0)
+		if e1 != nil || len(a) != 2 {
+			return errors.New("bad op")
+		}
+		ok, e2 := verifC14Bool(a[1])
+		if e2 != nil {
+			return errors.New("bad op")
+		}
+		for i, k := range d.kills {
+			if k.uuid != u {
+				continue
+			}
+			d.kills = append(d.kills[:i], d.kills[i+1:]...)
+			wp.mtx.Lock()
+			inPool := wp.workers[k.wkr.instance.ID()] == k.wkr
+			wp.mtx.Unlock()
+			// (a worker that Pool.sync has dropped has closed its runners without taking them out of
+			// its maps: a late onKilled would close one twice -- the O1 family, not C14)
+			if ok && inPool {
+				k.call.resp <- verifC14Resp{}
+				select {
+				case <-k.done:
+				case <-time.After(10 * time.Second):
+					panic("driver: onKilled did not happen")
+				}
+			} else {
+				k.call.resp <- verifC14Resp{err: errors.New("still running")}
+			}
+			break
 		}
 	case "fg":
 		u, e1 := num(0)
@@ -807,6 +972,12 @@ func (d *verifC14Driver) show() string {
 
 // release everything that is still blocked so that no goroutine outlives the case
 func (d *verifC14Driver) cleanup() {
+	d.gates.Lock()
+	d.gates.armed = map[[2]int]bool{}
+	d.gates.Unlock()
+	for _, k := range d.kills {
+		k.call.resp <- verifC14Resp{err: errors.New("case over")}
+	}
 	for _, p := range d.pend {
 		p.call.resp <- verifC14Resp{err: errors.New("case over")}
 	}
